@@ -90,6 +90,9 @@ class World:
         self._keep = []     # every storage object ever observed stays alive: id() is never re-used in a history
         self._ix = {"ns": {}, "tree": {}, "list": {}, "mat": {}, "ds": {}}
         self.removed = []   # (tree, namespace object of the list at removal time)
+        self.alarmed = None # index of the first step on which the CPU / wall-clock alarm of the HARNESS fired
+        self.cpu_limit = 5  # seconds of CPU time a single library call may use (see observe: re-observed with more)
+        self.nsteps = 0
 
     # -- registries ---------------------------------------------------------------------------
     def _reg(self, kind, store, o):
@@ -474,13 +477,26 @@ class World:
     def step(self, op):
         from dendropy.utility import error as dperr
         try:
-            with core.alarm(5):
+            with core.alarm(self.cpu_limit):
                 out = self.do(op)
         except dperr.TaxonNamespaceReconstructionError:
             out = ["ORecon"]
+        except TimeoutError as e:
+            # two different things: the SYNTHETIC outcome of extend(self) / += self (never executed, message says so),
+            # and the harness' own alarm (core.alarm raises TimeoutError("alarm")).  The second one is an observation
+            # problem until it repeats: a thorough run next to other jobs (and with a large heap: every Taxon ever made is
+            # kept for the creation-order ids, so a full garbage collection inside a call can take seconds) once hit it on
+            # a NEXUS read that takes milliseconds, and reported the outcome Hang for a call that had simply been
+            # interrupted half-way -> model / implementation disagreement without failing input.  observe() re-runs
+            # the whole history with a much larger limit when this flag is set.
+            if str(e) == "alarm" and self.alarmed is None:
+                self.alarmed = self.nsteps
+            out = ["OErr", core.exc_enum(e)]
+            e = None
         except Exception as e:
             out = ["OErr", core.exc_enum(e)]
             e = None
+        self.nsteps += 1
         return out
 
 
@@ -566,6 +582,8 @@ def gen_case(rng, maxlen, hazard=0.12, shape=None):
     elif shape is None and R() < 0.2:
         _add_then_reconstruct_scenario(rng, w, emit)
     if w.naive():
+        if w.alarmed is not None:    # the generator's world is no longer what a replay of `ops` gives: draw again
+            return gen_case(rng, maxlen, hazard, shape)
         return {"pool": pool, "ops": ops}
 
     target = len(ops) + rng.randint(5, maxlen)
@@ -577,6 +595,8 @@ def gen_case(rng, maxlen, hazard=0.12, shape=None):
             continue
         if not emit(op):
             break          # the history ends at the first step after which the property fails
+    if w.alarmed is not None:
+        return gen_case(rng, maxlen, hazard, shape)
     return {"pool": pool, "ops": ops}
 
 
@@ -1476,8 +1496,29 @@ def _pick0(rng, w, hazard):
 # observation
 # ----------------------------------------------------------------------------------------------
 
+OBSERVE_LIMITS = [5, 60, 240]   # CPU seconds per call: first attempt, re-observations after a harness alarm
+OBSERVE_STATS = {"reobserved": 0}
+
+
 def observe(case):
+    """Run the history on the library.  If the harness' alarm interrupts a call, the whole history is run again
+    from scratch (fresh objects, garbage collected first) with a larger limit; only a call that exceeds the last limit
+    too is reported as Hang (a real non-termination of the library would get there)."""
+    res = None
+    for attempt, lim in enumerate(OBSERVE_LIMITS):
+        if attempt:
+            import gc
+            gc.collect()
+            OBSERVE_STATS["reobserved"] += 1
+        res, alarmed = _observe_once(case, lim)
+        if alarmed is None:
+            break
+    return res
+
+
+def _observe_once(case, cpu_limit):
     w = World(case["pool"])
+    w.cpu_limit = cpu_limit
     res = []
     for op in case["ops"]:
         out = w.step(op)
@@ -1485,7 +1526,7 @@ def observe(case):
         res.append({"out": out, "dump": d, "naive": w.naive(), "rows": w.rows(),
                     "removed": [[w._ix["tree"][id(t)], w._ix["ns"][id(n)], t.taxon_namespace is n]
                                 for t, n in w.removed]})
-    return res
+    return res, w.alarmed
 
 
 # ----------------------------------------------------------------------------------------------
@@ -2405,6 +2446,53 @@ def check_witnesses(ctx):
     return ok
 
 
+# the history on which a thorough run (2026-10-01, machine shared with other jobs) reported "model and implementation
+# disagree, no failing input": the harness' own alarm had interrupted the NEXUS read of step 35 and the step was recorded
+# with the outcome Hang (which is the modelled outcome of extend(self) only).  Model and library agree on it; it is kept
+# as a fixed case (mixed case sensitivity, DataSet.read / TreeList.read NEXUS + Newick, unify, matrix migration, a matrix
+# clone, += from a list) and as the subject of check_reobservation.
+DIS_CASE = {"pool": ["X", "Zz", "w", "x", "y", "z", "zz"],
+            "ops": [
+                ["NewNs", False], ["NewNs", True], ["NewNs", False], ["NewTaxon", 0, 6], ["NewTaxon", 1, 2],
+                ["NewTaxon", 1, 6], ["NewList", 2], ["MkTree", 0, [1, 1, 0]], ["NewMat", 0], ["NewDs"], ["NewNs", True],
+                ["NewTaxon", 3, 1], ["NewTaxon", 3, 0], ["NewTaxon", 3, 6], ["NewList", 3], ["MkTree", 3, [5, 4, 3]],
+                ["Append", 1, 1, ["SMigrate", True]], ["MkTree", 3, [4, 3, 5]], ["Append", 1, 2, ["SMigrate", True]],
+                ["NewMat", 3], ["NewSeq", 1, 4], ["NewSeq", 1, 5], ["NewSeq", 1, 3], ["NewDs"],
+                ["DsAdd", 1, ["ObjMat", 1], False], ["DsAdd", 1, ["ObjList", 1], False], ["NewNs", False], ["NewList", 4],
+                ["Add", 2, ["SrcList", 1]], ["Extend", 2, ["SrcList", 1]], ["NewMat", 3], ["DsAdd", 0, ["ObjMat", 0], True],
+                ["NewSeq", 1, 4], ["DsNewList", 0, 4], ["NewTaxon", 0, 0],
+                ["DsReadTrees", 1, "Nexus", False, None, [[1, 2, 4, 0]], 33], ["NewSeq", 1, 5], ["SetRow", 0, ["KeyLabel", 6]],
+                ["Insert", 1, 0, 0, ["SMigrate", False]], ["ReadList", 0, "Nexus", False, None, [[1, 4, 3], [4, 5, 2, 1]], 21],
+                ["Unify", 0, 3, False], ["DsNewMat", 1, 2], ["Extend", 4, ["SrcList", 5]],
+                ["ReadList", 3, "Newick", False, None, [[1, 0]], 46], ["MigrateMat", 0, 2, True], ["CopyMat", 3, "clone"],
+                ["IAdd", 4, ["SrcList", 3]],
+            ]}
+
+
+def check_reobservation(ctx):
+    """A call interrupted by the harness' alarm must be re-observed from scratch and not be reported as Hang."""
+    clean = observe(DIS_CASE)
+    state = {"armed": True}
+    orig = World.do
+
+    def flaky(self, op):
+        r = orig(self, op)
+        if state["armed"] and op[0] == "DsReadTrees":
+            state["armed"] = False
+            raise TimeoutError("alarm")      # what core.alarm raises, after the call has done its work
+        return r
+    World.do = flaky
+    try:
+        before = OBSERVE_STATS["reobserved"]
+        again = observe(DIS_CASE)
+    finally:
+        World.do = orig
+    ok = (again == clean and OBSERVE_STATS["reobserved"] == before + 1 and not state["armed"]
+          and all(o["out"] != ["OErr", "Hang"] for o in again))
+    ctx.obligation("a library call interrupted by the harness' own alarm is re-observed from scratch with a larger limit and "
+                   "not reported as the outcome Hang (false alarm 'no failing input found' of a thorough run)", ok)
+
+
 def fixed_cases():
     P = P6
     base = EX_BASE
@@ -2436,6 +2524,7 @@ def fixed_cases():
         yield c
     for c in wave7_cases():
         yield c
+    yield DIS_CASE
     for c in wave8_cases():
         yield c
     yield wave8_read_case()
@@ -2673,6 +2762,7 @@ def run(tier, seed, replay=None):
     if not ok:
         core.broken_proof(ctx, search)
     check_witnesses(ctx)
+    check_reobservation(ctx)
     n = 400 if tier == "quick" else 6000
     cases = list(fixed_cases())
     cases += [gen_case(ctx.rng, 16 if tier == "quick" else 34, hazard=0.08 if tier == "quick" else 0.05) for _ in range(n)]
@@ -2689,6 +2779,11 @@ def run(tier, seed, replay=None):
     core.corr_stage(ctx, cases, observe, to_coq, HEADER, "case_ok8", oracle=oracle,
                     show_fn="case_run8", nontrivial=nontrivial, search=search, shard=48 if tier == "quick" else 160,
                     sample_fn=lambda c, o: {"ops": c["ops"][-6:], "pool": c["pool"], "last": o[-1]["dump"] if o else None})
+    if OBSERVE_STATS["reobserved"] > 1:     # 1 = the self-test of check_reobservation
+        print("note: %d histories were re-observed after the harness' alarm interrupted a library call"
+              % (OBSERVE_STATS["reobserved"] - 1))
+        for _ in range(OBSERVE_STATS["reobserved"] - 1):
+            ctx.count("reobserved-after-harness-alarm")
     return ctx.finish(level="proof",
                       rule="operation histories generated online against the live library (set-up of 2-3 namespaces with "
                            "overlapping / disjoint / case-variant labels, trees, lists, a matrix, a data set; then 5..16 "
@@ -2714,6 +2809,6 @@ def run(tier, seed, replay=None):
                            "non-member remove, index out of range, taxon outside the matrix' namespace) each followed by the corrected "
                            "call: after a refused call EVERY object of the history is what it was; 4% of the eligible random calls "
                            "carry the misspelt keyword; "
-                           "plus 36 fixed histories (the witnesses of the `_refuted` theorems, the non-vacuity history, one history per group of call sites) for the call sites named in the property; thorough adds every history of length <= 2 over a 53-op alphabet on a prepared state (cut at the first violating step); non-trivial = >= 6 steps, >= 2 "
+                           "plus 37 fixed histories (the witnesses of the `_refuted` theorems, the non-vacuity history, the 47-step history of a former false alarm, one history per group of call sites) for the call sites named in the property; thorough adds every history of length <= 2 over a 53-op alphabet on a prepared state (cut at the first violating step); non-trivial = >= 6 steps, >= 2 "
                            "namespaces and at least one step that re-mapped or cloned a tree / matrix into a namespace; "
                            "distinct by full case content")
